@@ -1,3 +1,5 @@
+import PhysisModel.Model.Inflate
+import PhysisModel.Driver.Inflate
 import PhysisModel.Base.Proto
 import PhysisModel.Spec.SqPackData
 import PhysisModel.Model.Dat
@@ -35,10 +37,11 @@ def parseBlocks (s : String) : Option (List Block) :=
 def filler (n : Nat) (seed : Nat) : Bytes :=
   (List.range n).map (fun i => ((i * 7 + seed) % 251 + 1).toUInt8)
 
-def inflateOf (bs : List Block) : Dat.Inflate := fun c n =>
-  match bs.find? (fun b => b.compressed == some c && b.data.length == n) with
-  | some b => some b.data
-  | none => none
+/-- The model's `inflate` parameter is instantiated with the executable RFC 1951 inflater
+(`Model/Inflate.lean`, itself checked against zlib by the `inflate` / `garbage` cases below): the
+(compressed, original) pairs delivered by the harness are not trusted — a stream that does not
+inflate to its claimed content makes the model disagree with the expected answer. -/
+def inflateOf (_ : List Block) : Dat.Inflate := fun c n => Physis.Inflate.inflatesTo c n
 
 def showRes : Option (Option Bytes) → String
   | none => "panic"
@@ -55,6 +58,8 @@ def finish (units suffix : Nat) (entry : Bytes) (all : List Block) (expected : B
 
 def handle (line : String) : String :=
   match fields line with
+  | "inflate" :: _ => Physis.Driver.Inflate.handle line
+  | "garbage" :: _ => Physis.Driver.Inflate.handle line
   | ["std", units, suffix, blocks] =>
     match (do
       let bs ← parseBlocks blocks
